@@ -14,7 +14,7 @@ RULE = ("case = one generated rule-rich configuration (as C03) + one valid abstr
         "cardinality, insert an unknown short/long key, an ambiguous abbreviation or (abbreviations off) any abbreviation, "
         "replace a value by one that does not convert (non-numeric, out of range of the type, empty) or fails a check "
         "(lower-1, ==upper, outside range, not in list, too short/long, pattern mismatch), remove the value of a "
-        "required-value argument (end of line or followed by a key), use an excluded argument after the excluding one, "
+        "required-value argument (end of line or followed by a key), increment a level counter exactly up to its upper limit, use an excluded argument after the excluding one, "
         "drop the partner of a requires constraint, break all_of (some but not all), any_of/one_of (two members), one_of "
         "(none), differ (equal values), disjoint (common element). The mutated line is confirmed invalid by the model "
         "(or invalid by construction for key/missing-value mutations) and run in up to 5 spellings (long, short+glued+"
@@ -26,7 +26,7 @@ ASSUMPTIONS = c03.ASSUMPTIONS + ["the model's notion of 'breaks a declared rule'
 PROFILE = dict(c03.PROFILE)
 STYLES = [dict(key="long", val="word", group="never"), dict(key="short", val="glue", group="max"), dict(key="abbr", val="eq"), dict(), dict()]
 MUTATIONS = ["drop-mandatory", "cardinality", "unknown-short", "unknown-long", "ambiguous-abbr", "bad-value", "check-fail",
-             "missing-value", "excluded", "missing-required", "all_of", "two-of", "one_of-none", "differ", "disjoint"]
+             "missing-value", "excluded", "missing-required", "all_of", "two-of", "one_of-none", "differ", "disjoint", "level-limit"]
 
 
 def cases(tier):
@@ -183,6 +183,33 @@ def mutate(rng, cfg, uses, kind):
             m[i].elems[rng.randrange(len(m[i].elems))] = t
             return m, None
         return None
+    if kind == "level-limit":
+        # a level counter with an upper limit, incremented (value-less uses) exactly up to the limit: the last increment
+        # produces a value that fails the check
+        lv = [a for a in cfg.args if argh.cat_of(a.slot) == "level" and any(ch[0] in ("upper", "range") for ch in a.checks)
+              and not (a.deprecated or a.replaced)]
+        if lv:
+            a = rng.choice(lv)
+        else:
+            if any(x.short == "V" or x.long == "zz-verbosity" for x in cfg.args):
+                return None
+            a = argh.Arg("lc9", "V", "zz-verbosity")
+            a.init = "0"
+            hi = rng.choice([1, 2, 3, 5])
+            a.checks.append(("upper", hi, argh.elem_of(a.slot)) if rng.random() < 0.6 else ("range", 0, hi, argh.elem_of(a.slot)))
+            cfg.args.append(a)
+        ch = [x for x in a.checks if x[0] in ("upper", "range")][0]
+        hi = ch[1] if ch[0] == "upper" else ch[2]
+        try:
+            start = int(a.init) if a.init not in (None, "") else 0
+        except (TypeError, ValueError):
+            start = 0
+        if hi - start < 1 or hi - start > 12:
+            return None
+        m = [u for u in m if u.arg is not a]
+        for _ in range(hi - start):
+            m.insert(rng.randint(0, len(m)), Use(a, None))
+        return m, None
     if kind == "missing-value":
         c = [i for i, u in enumerate(m) if u.elems is not None and u.arg.value_mode() == "req"]
         if not c:
